@@ -161,6 +161,12 @@ def teval(t, leaf=None, sv=None):
         return ev(t[2]) if ev(t[1]) else ev(t[3])
     if k == 'tuple':
         return tuple(ev(x) for x in t[1])
+    if k == 'index' and t[1][0] == 'dict':
+        key = ev(t[2])          # a literal table read by key: only the entry that is read is evaluated
+        for e in t[1][1]:
+            if len(e) == 2 and ev(e[0]) == key:
+                return ev(e[1])
+        raise NoValue(text(t, 80))
     if k == 'index':
         return ev(t[1])[ev(t[2])]
     if k == 'call' and t[1] == 'builtins.len':
